@@ -5,7 +5,7 @@ Correspondence: exact (Gaussian-integer operators, integer index tables, squared
 table values as exact rationals).  Probe: float comparison of the real code against an independent explicit
 contraction / explicit Dicke embedding (tolerance 1e-12, see design_notes/C17.md).
 """
-import itertools, math
+import itertools, math, contextlib
 from fractions import Fraction
 import numpy as np
 from . import common
@@ -271,10 +271,111 @@ def dicke_ops(ctx):
     return ops, impl
 
 
+@contextlib.contextmanager
+def patched(obj, name, value):
+    orig = getattr(obj, name)
+    setattr(obj, name, value)
+    try:
+        yield
+    finally:
+        setattr(obj, name, orig)
+
+
+def users_ops(ctx):
+    """entangle/pureb.py and maximum_entropy/_internal.py: every reduction done by index bookkeeping, on integer data"""
+    import numqi, torch, cvxpy
+    import numqi.maximum_entropy._internal as ME
+    D = numqi.dicke
+    nrng = np.random.default_rng(ctx.np_seed + 7)
+    ops, impl = [], []
+    # (1) PureBosonicExt.forward: real object, parameter vector and table values replaced by integers (index lists are the real ones)
+    for dimA, dimB, k in ([(2, 2, 2), (3, 2, 3), (2, 3, 2)] if ctx.quick() else [(a, b, k) for a in (1, 2, 3) for b in (2, 3) for k in (1, 2, 3)]):
+        L = D.get_dicke_number(k, dimB)
+        v = rand_gint(nrng, (dimA * L,), -5, 5)
+
+        def f():
+            model = numqi.entangle.PureBosonicExt(dimA, dimB, k)
+            ints = [rand_gint(nrng, (len(x[0]),), -4, 4) for x in model.Bij]
+            model.Bij = [[x[0], x[1], torch.tensor(w, dtype=torch.complex128)] for x, w in zip(model.Bij, ints)]
+            class Stub(torch.nn.Module):
+                def forward(self_):
+                    return torch.tensor(v, dtype=torch.complex128)
+            model.manifold = Stub()
+            model.set_expectation_op(np.eye(dimA * dimB))
+            with torch.no_grad():
+                model()
+            tline = '|'.join(';'.join(f'{int(i)}:{int(j)}:{int(w.real)},{int(w.imag)}' for i, j, w in zip(x[0].tolist(), x[1].tolist(), ww)) or '-' for x, ww in zip(model.Bij, ints))
+            return tline, gint_list(model.dm_torch.numpy())
+        r = guarded(f)
+        if isinstance(r, str):
+            ops.append(f'C17 pureb {dimA} {dimB} {L} - {gint_list(v)}'); impl.append(r)
+        else:
+            ops.append(f'C17 pureb {dimA} {dimB} {L} {r[0]} {gint_list(v)}'); impl.append(r[1])
+        ctx.count('pureb-forward')
+    # (2) return_tensor=True against the table (squares, exact)
+    for n, d in [(1, 2), (2, 2), (3, 2), (2, 3), (3, 3)] + ([] if ctx.quick() else [(4, 2), (4, 3), (2, 4), (3, 4)]):
+        ops.append(f'C17 tensor {n} {d}')
+
+        def f():
+            T = D.get_partial_trace_ABk_to_AB_index(n, d, return_tensor=True)
+            if np.abs(T.imag).max() != 0 or T.real.min() < 0:
+                return 'tensor-not-real-nonnegative'
+            return ';'.join(rat_str(rationalise(float(x) ** 2, n * n)) for x in T.real.reshape(-1))
+        impl.append(guarded(f)); ctx.count('tensor')
+    # (3) get_ABk_gellmann_preimage_op: Gell-Mann matrices and the Dicke tensor intercepted and replaced by integer arrays
+    for dimA, dimB, k in ([(2, 2, 2), (2, 3, 2)] if ctx.quick() else [(2, 2, 2), (2, 2, 3), (2, 3, 2), (3, 2, 2), (2, 2, 4)]):
+        N0 = (dimA * dimB) ** 2 - 1
+        L = D.get_dicke_number(k, dimB)
+        G = rand_gint(nrng, (N0, dimA * dimB, dimA * dimB), -3, 3) * 12          # multiples of 12: the final /kext stays exact
+        B = rand_gint(nrng, (dimB, dimB, L, L), -3, 3)
+        sel = sorted(set([0, N0 - 1, int(nrng.integers(N0))]))
+        try:
+            with patched(numqi.gellmann, 'all_gellmann_matrix', lambda d_, with_I=True, tensor_n=1: G.copy()), \
+                 patched(numqi.dicke, 'get_partial_trace_ABk_to_AB_index', lambda kk, dd, return_tensor=False: B.copy()):
+                rb = ME.get_ABk_gellmann_preimage_op(dimA, dimB, k, kind='boson')
+                rs = ME.get_ABk_gellmann_preimage_op(dimA, dimB, k, kind='symmetric')
+        except Exception as e:
+            rb = rs = 'error:' + type(e).__name__
+        for g in sel:
+            ops.append(f'C17 preb {dimA} {dimB} {L} {gint_list(G[g])} {gint_list(B)}')
+            impl.append(rb if isinstance(rb, str) else gint_list(rb[g]))
+            if dimA * dimB ** k <= 32:
+                ops.append(f'C17 pres {dimA} {dimB} {k} {gint_list(G[g])}')
+                impl.append(rs if isinstance(rs, str) else gint_list(rs[g] * k))
+        ctx.count('preimage-op')
+    # (4) sdp_2local_rdm_solve: the cvxpy variable is replaced by an integer Hermitian constant and the problem is captured instead
+    #     of solved; the left-hand sides of the equality constraints are Re Tr(P_j rdm_(ind0,ind0+1))
+    for n in ([2, 3, 4] if ctx.quick() else [2, 3, 4, 5]):
+        A = rand_gint(nrng, (2 ** n, 2 ** n), -3, 3)
+        X = A + A.conj().T
+        cap = {}
+
+        class FakeProblem:
+            def __init__(self, obj, cons):
+                cap['cons'] = cons
+
+            def solve(self, *a, **kw):
+                return 0
+
+        def f():
+            with patched(cvxpy, 'Variable', lambda shape, hermitian=False, **kw: cvxpy.Constant(X)), patched(cvxpy, 'Problem', FakeProblem):
+                ret = ME.sdp_2local_rdm_solve(np.zeros(15 * (n - 1)))
+            if not np.array_equal(ret, X):
+                return 'variable-not-returned'
+            vals = np.concatenate([np.asarray(c.args[0].value).reshape(-1) for c in cap['cons'][2:]])
+            if np.any(vals != np.round(vals)):
+                return 'nonintegral'
+            return ';'.join(str(int(x)) for x in vals)
+        ops.append(f'C17 rdm2 {n} {gint_list(X)}'); impl.append(guarded(f)); ctx.count('sdp-2local-rdm')
+    return ops, impl
+
+
 def correspondence(ctx):
     ops, impl = pt_ops(ctx)
     o2, i2 = dicke_ops(ctx)
     ops += o2; impl += i2
+    o3, i3 = users_ops(ctx)
+    ops += o3; impl += i3
     model = common.run_model(ops)
 
     def nontrivial(op, out):
